@@ -26,7 +26,7 @@ for pid in ALL:
 na = [{"property_id": p, "reason": NOT_APPLICABLE.get(p, PENDING_REASON)} for p in ALL if p not in CLAIMED]
 man = {
     "version": 1,
-    "setup_cmd": "cd lean && lake build",
+    "setup_cmd": "python3 tools/setup.py",
     "hooks": {
         "guard": "ODC_GEO_VERIF",
         "enable": "export ODC_GEO_VERIF=1 (set by check.py); no instrumentation commit exists in /repo: all interception is done from the harness by substituting module attributes",
